@@ -129,7 +129,7 @@ fn durations() -> Vec<Duration> {
     ]
 }
 
-const PATHS: [&str; 7] = ["p", "a b", "a,b", "a: b", "a}b", "é", "/tmp/x y/z"];
+const PATHS: [&str; 13] = ["p", "a b", "a,b", "a: b", "a}b", "é", "/tmp/x y/z", "null", "true", "123", "~", "rel/ok.flag", "-"];
 pub const ENV_VALUES: [&str; 17] = ["bar", "q\"uote", "back\\slash", "a: b", "{x}", "a,b", "#c", " lead", "trail ", "'s'", "ü", "", "true", "null", "1", "a #b", "x\\\"y"];
 
 fn waits() -> Vec<TestCaseWait> {
